@@ -223,6 +223,8 @@ def gen_args(rng, names, cc, malformed):
         args.append(["D", rng.choice(PMACS), ["P", rng.random() < 0.5, rng.choice(names)]])
     for _ in range(rng.choice([0, 0, 0, 1, 1, 2])):
         args.append(["F", rng.choice(names)])
+        if rng.random() < 0.25:
+            args.append(list(args[-1]))            # the same header forced twice (#pragma once / guard / bare)
     for _ in range(rng.choice([0, 1, 2, 3])):
         for t in rng.choice(OK_FLAGS):
             args.append(["R", t])
